@@ -173,8 +173,12 @@ PROPS = {
                   "notify, cache reset, error report, malformed PDU, disconnect, lifetime timeout, server removal, reset) over "
                   "1-3 caches are fed to the ROA manager and the table content and per-cache record counters are compared with "
                   "a transactional model after every operation."),
-        "note": ("The RTR TCP client loop is bypassed (events are injected white-box); what a reset-by-address does to learned "
-                 "records before resynchronisation is not asserted (either outcome adopted)."),
+        "note": ("The RTR TCP client loop is bypassed (events are injected white-box); every client has a real loopback TCP "
+                 "connection whose cache end the harness reads, so the query a Serial Notify triggers is observed: a newer serial "
+                 "(RFC 1982 arithmetic, serials around the 2^32 wrap are generated) must be answered with one Serial Query for the "
+                 "router's serial, an equal one with nothing. (a) includes locally originated routes (source without local AS, "
+                 "origin AS 0) and paths ending in AS 0 against AS 0 ROAs. What a reset-by-address does to learned records before "
+                 "resynchronisation is not asserted (either outcome adopted)."),
         "technique": "property-based testing (rapid): brute-force reference (a), model-based history testing (b)",
         "rule": ("(a) non-trivial when a route has >=2 covering ROAs not all of which match; (b) non-trivial when a completed "
                  "response is applied on top of a non-empty committed set (incremental update); distinct by case hash"),
